@@ -225,7 +225,15 @@ bool EventQueue::PostponeAllEvents(Listener* l, inttime_t time)
             //LL::Remove<EventQueueNode*, &EventQueueNode::next, &EventQueueNode::prev>(event);
             //LL::Add<EventQueueNode*, &EventQueueNode::next, &EventQueueNode::prev>(node, event);
             Node.Remove(event);
-            Node.Insert(node, event);
+            if (!node) {
+                // postponed past the last node
+                Node.Add(event);
+            } else if (node.Node() == Node.Root()) {
+                // still the earliest: Insert() never updates the root
+                Node.AddFirst(event);
+            } else {
+                Node.Insert(node, event);
+            }
 
             return true;
         }
@@ -255,7 +263,15 @@ bool EventQueue::PostponeEvent(Listener* l, Event& ev, inttime_t time)
             //LL::Remove<EventQueueNode*, &EventQueueNode::next, &EventQueueNode::prev>(event);
             //LL::Add<EventQueueNode*, &EventQueueNode::next, &EventQueueNode::prev>(node, event);
             Node.Remove(event);
-            Node.Insert(node, event);
+            if (!node) {
+                // postponed past the last node
+                Node.Add(event);
+            } else if (node.Node() == Node.Root()) {
+                // still the earliest: Insert() never updates the root
+                Node.AddFirst(event);
+            } else {
+                Node.Insert(node, event);
+            }
 
             return true;
         }
